@@ -1,5 +1,6 @@
 From Coq Require Import ZArith List.
-From PV Require Import Base.U64 C07.C07_Model C07.C07_Arith C07.C07_Lists C07.C07_SPSC_Model C07.C07_Proofs.
+From Coq Require Import Sorted.
+From PV Require Import Base.U64 C07.C07_Model C07.C07_Arith C07.C07_Lists C07.C07_SPSC_Model C07.C07_MPMC_Model C07.C07_Proofs.
 Import ListNotations.
 Local Open Scope Z_scope.
 
@@ -12,14 +13,14 @@ Local Open Scope Z_scope.
 Theorem spsc_q_exactly_once_fifo :
   forall c, cfg_ok c -> forall s pp cc, pp <> cc -> forall scripts, spsc_wf pp cc scripts ->
   forall st, sreach c (spsc_init s scripts) st ->
-  pop_items (chron st cc) ++ map (fun i => (i, s_gval st i)) (zrange (s_gh st) (s_gt st)) = push_items (chron st pp).
+  pop_items (C07_SPSC_Proofs.chron st cc) ++ map (fun i => (i, s_gval st i)) (zrange (s_gh st) (s_gt st)) = push_items (C07_SPSC_Proofs.chron st pp).
 Proof. exact spsc_exactly_once_fifo. Qed.
 Print Assumptions spsc_q_exactly_once_fifo.
 
 Theorem spsc_q_no_invention :
   forall c, cfg_ok c -> forall s pp cc, pp <> cc -> forall scripts, spsc_wf pp cc scripts ->
   forall st, sreach c (spsc_init s scripts) st ->
-  forall iv, In iv (pop_items (chron st cc)) -> In iv (push_items (chron st pp)).
+  forall iv, In iv (pop_items (C07_SPSC_Proofs.chron st cc)) -> In iv (push_items (C07_SPSC_Proofs.chron st pp)).
 Proof. exact spsc_no_invention. Qed.
 Print Assumptions spsc_q_no_invention.
 
@@ -38,5 +39,83 @@ Print Assumptions spsc_q_bounded.
 (* every E3 replay step is a composition of steps of the proved transition system *)
 Theorem spsc_e3_runs_are_runs :
   forall c st0 st p f, sreach c st0 st -> sreach c st0 (fst (spsc_e3step c st p f)).
-Proof. exact e3step_reach. Qed.
+Proof. exact C07_SPSC_Proofs.e3step_reach. Qed.
 Print Assumptions spsc_e3_runs_are_runs.
+
+(* ===== MPMC ring queue: push/pop (CAS variant) and send/recv (ticket variant) freely mixed; ANY number of
+   participants (threads are a function nat -> thread), ANY scripts, ANY schedule (mreach), every capacity 2^k,
+   every start index s >= 0.  Guard `nowrap`: the claim counters are below 2^64 - capacity (see notes/C07.md N1:
+   at the 2^64 index wrap a queue of capacity >= 4 stops accepting pushes; unreachable in practice).
+   pushed st p / popped st p = (ghost index, value) of the completed successful pushes / pops of thread p in
+   its program order; m_gval st i / m_gwho st i / m_gpop st i = value, producer, consumer of the element with
+   absolute index i (set at the claim). ===== *)
+
+(* no invention + right value: whatever a pop/recv returned is the value pushed under the index it claimed *)
+Theorem mpmc_q_no_invention :
+  forall c, cfg_ok c -> forall s scripts, 0 <= s -> forall st, mreach c (mpmc_init c s scripts) st -> nowrap c st ->
+  forall p i v, In (i, v) (popped st p) ->
+  s <= i < m_gh st /\ i < m_gt st /\ v = m_gval st i /\ m_gpop st i = p.
+Proof. exact mpmc_popped_ok. Qed.
+Print Assumptions mpmc_q_no_invention.
+
+Theorem mpmc_q_pushed_recorded :
+  forall c, cfg_ok c -> forall s scripts, 0 <= s -> forall st, mreach c (mpmc_init c s scripts) st -> nowrap c st ->
+  forall p i v, In (i, v) (pushed st p) -> s <= i < m_gt st /\ m_gval st i = v /\ m_gwho st i = p.
+Proof. exact mpmc_pushed_ok. Qed.
+Print Assumptions mpmc_q_pushed_recorded.
+
+(* exactly once, part 1 (at most once): one index is never returned by two pops *)
+Theorem mpmc_q_at_most_once :
+  forall c, cfg_ok c -> forall s scripts, 0 <= s -> forall st, mreach c (mpmc_init c s scripts) st -> nowrap c st ->
+  forall p q i v w, In (i, v) (popped st p) -> In (i, w) (popped st q) -> p = q /\ v = w.
+Proof. exact mpmc_pop_unique. Qed.
+Print Assumptions mpmc_q_at_most_once.
+
+(* exactly once, part 2 (nothing lost): every index claimed by a pop has been returned by the claiming thread, or
+   that thread is still inside that pop; every index claimed by a push is recorded or still being written *)
+Theorem mpmc_q_nothing_lost :
+  forall c, cfg_ok c -> forall s scripts, 0 <= s -> forall st, mreach c (mpmc_init c s scripts) st -> nowrap c st ->
+  forall i, s <= i < m_gh st ->
+  In (i, m_gval st i) (popped st (m_gpop st i)) \/
+  exists pc, t_pc (m_thr st (m_gpop st i)) = Some pc /\ rhold pc = Some i.
+Proof. exact mpmc_nothing_lost. Qed.
+Print Assumptions mpmc_q_nothing_lost.
+
+Theorem mpmc_q_push_accounted :
+  forall c, cfg_ok c -> forall s scripts, 0 <= s -> forall st, mreach c (mpmc_init c s scripts) st -> nowrap c st ->
+  forall i, s <= i < m_gt st ->
+  In (i, m_gval st i) (pushed st (m_gwho st i)) \/
+  exists pc, t_pc (m_thr st (m_gwho st i)) = Some pc /\ whold pc = Some i.
+Proof. exact mpmc_push_accounted. Qed.
+Print Assumptions mpmc_q_push_accounted.
+
+(* per-producer FIFO: the indices of a thread's completed pushes increase in its program order, and so do the
+   indices of a thread's completed pops (elements are handed out in index order) *)
+Theorem mpmc_q_fifo_per_producer :
+  forall c, cfg_ok c -> forall s scripts, 0 <= s -> forall st, mreach c (mpmc_init c s scripts) st -> nowrap c st ->
+  forall p, StronglySorted Z.lt (map fst (pushed st p)) /\ StronglySorted Z.lt (map fst (popped st p)).
+Proof. exact mpmc_fifo. Qed.
+Print Assumptions mpmc_q_fifo_per_producer.
+
+(* bounded / the mark-turn invariant: a stored element (published, not yet released) sits intact in its slot under
+   its own turn mark, and two stored elements never share a slot: at most `capacity` elements are stored and no
+   slot is overwritten before it has been read *)
+Theorem mpmc_q_bounded :
+  forall c, cfg_ok c -> forall s scripts, 0 <= s -> forall st, mreach c (mpmc_init c s scripts) st -> nowrap c st ->
+  (forall i, stored s st i ->
+     m_mark st (i mod c_cap c) = 2 * (i / c_cap c) + 1 /\ m_slot st (i mod c_cap c) = m_gval st i) /\
+  (forall i j, stored s st i -> stored s st j -> i mod c_cap c = j mod c_cap c -> i = j).
+Proof. intros c Hc s scripts H0 st R NW. split; [exact (mpmc_stored_intact c Hc s scripts H0 st R NW) | exact (mpmc_stored_distinct c Hc s scripts H0 st R NW)]. Qed.
+Print Assumptions mpmc_q_bounded.
+
+Theorem mpmc_e3_runs_are_runs :
+  forall c st0 st p f, mreach c st0 st -> mreach c st0 (fst (mpmc_e3step c st p f)).
+Proof. exact C07_MPMC_Proofs.e3step_reach. Qed.
+Print Assumptions mpmc_e3_runs_are_runs.
+
+(* NOT proved (kept as statements): the emptiness / fullness REPORTING of the CAS variant — a push that returns
+   false saw the queue full (tail - head = capacity) at its head load, a pop that returns false saw it empty. *)
+Definition mpmc_q_reporting_statement : Prop :=
+  forall c, cfg_ok c -> forall s scripts, 0 <= s -> forall st p, mreach c (mpmc_init c s scripts) st -> nowrap c st ->
+  forall prev t, t_pc (m_thr st p) = Some (MPopLdH2 prev t) -> m_head st = prev -> check_empty (m_head st) t = true ->
+  exists st1, mreach c (mpmc_init c s scripts) st1 /\ m_gh st1 = m_gt st1 /\ m_gh st1 = m_gh st.
